@@ -1,6 +1,7 @@
 import E3nnVerif.Sound.RTPChecks
 import E3nnVerif.Props.C04
 import E3nnVerif.Props.C17
+import E3nnVerif.Cert.Gen
 import Mathlib.LinearAlgebra.Matrix.DotProduct
 /-
 C10 — `o3.ReducedTensorProducts` / `io.CartesianTensor`.
@@ -16,12 +17,14 @@ the formula's terms, the index irreps, `irreps_out` and the buffer `change_of_ba
                                             i.e. `s.D_from_angles(α,β,γ)` (`Dirr_block`: block `(o,l)` of it is the code's `wigner_D(l,α,β,γ)`)
   `Pirr s`                                  the diagonal matrix of the parities, i.e. `s.D_from_angles(0,0,0,k=1)`
 
+  `termsCheck c`, `isSym_iff_terms`          `IsSym` ⇔ the equalities literally written in the formula (C17's closure induction)
+
 Theorems.  Hypotheses are only the kernel-decidable certificates (`Certified c`, `Complete c`), discharged by
 `decide +kernel` per configuration in Cert/RTP/*.lean.  Everything is for ALL Euler angles, all `k`, all real tensors —
 and for any number of indices (the product representation is built by recursion on the list of indices).
 -/
 namespace E3nnVerif.Props.C10
-open E3nnVerif.Model.RTP E3nnVerif.Model.Wigner E3nnVerif.Theory E3nnVerif.Exact E3nnVerif.ReduceModel
+open E3nnVerif.Model.RTP E3nnVerif.Model.Wigner E3nnVerif.Theory E3nnVerif.Exact E3nnVerif.ReduceModel E3nnVerif.PermModel
 open Matrix
 open scoped BigOperators
 
@@ -244,6 +247,201 @@ theorem main_eq_contraction {B : ℕ} {prog : List IR.Node} (h : progCheck c B p
       = ∑ x : Idx c.irIn, Qreal c z x * prodVars env c.irIn (varBases B b 0 c.irIn) x :=
   prog_of_check h env b hb z
 
+/-! ## the symmetric tensors are those satisfying the equalities written in the formula -/
+
+/-- the formula's terms are signed permutations of the `n` indices (what `germinate_formulas` accepts) -/
+def termsCheck (c : Cfg) : Bool :=
+  !c.terms.isEmpty && c.terms.all fun a => (a.1 == 1 || a.1 == -1) && isPerm a.2 && a.2.length == c.nIdx
+
+theorem length_toList : ∀ {L : List (List Ir)} (x : Idx L), x.toList.length = L.length
+  | [], _ => rfl
+  | _ :: L, (_, x) => by rw [IdxL.toList_cons, List.length_cons, length_toList (L := L) x, List.length_cons]
+
+
+/-- **the symmetric tensors are exactly the tensors satisfying the equalities written in the formula**: a tensor that
+    satisfies `t[x] = s·t[x∘p]` for the TERMS of the formula satisfies it for every element of the group they generate -/
+theorem isSym_of_terms (ht : termsCheck c = true) (hg : groupCheck c = true) {t : Idx c.irIn → ℝ}
+    (h : ∀ a ∈ c.terms, ∀ x y : Idx c.irIn, y.toList = act x.toList a.2 → t x = (a.1 : ℝ) * t y) : IsSym c t := by
+  simp only [termsCheck, Bool.and_eq_true, Bool.not_eq_true', List.all_eq_true, Bool.or_eq_true, beq_iff_eq] at ht
+  obtain ⟨hne, hterms⟩ := ht
+  have hne' : c.terms ≠ [] := by intro e; rw [e] at hne; simp at hne
+  obtain ⟨G, hG, _, _, _, hind⟩ := C17.germinate_signed_spec (n := c.nIdx) (gens := c.terms) hne'
+    (fun a ha => ⟨(hterms a ha).1.1, (hterms a ha).1.2, (hterms a ha).2⟩)
+  have hgrp : c.group = G := by unfold Cfg.group; rw [hG]
+  obtain ⟨_, _, hmem, hval⟩ := group_of_check hg
+  let T : SPerm → Prop := fun a => (a.1 = 1 ∨ a.1 = -1) ∧ IsPerm a.2 ∧ a.2.length = c.nIdx ∧
+    (∀ x : Idx c.irIn, ∃ y : Idx c.irIn, y.toList = act x.toList a.2) ∧
+    (∀ x y : Idx c.irIn, y.toList = act x.toList a.2 → t x = (a.1 : ℝ) * t y)
+  have hlen : ∀ x : Idx c.irIn, x.toList.length = c.nIdx := fun x => length_toList x
+  have hall : ∀ a ∈ G, T a := by
+    apply hind T
+    · intro a ha
+      exact ⟨(hterms a ha).1.1, isPerm_iff.1 (hterms a ha).1.2, (hterms a ha).2, hval a (hmem a ha), h a ha⟩
+    · -- inverse
+      rintro ⟨s, p⟩ ⟨hs, hp, hl, hv, hsym⟩
+      have back : ∀ x y : Idx c.irIn, y.toList = act x.toList (inverseRaw p) → x.toList = act y.toList p := by
+        intro x y hy
+        rw [hy, act_act hp (by simp), inverseRaw_composeRaw hp, act_identity]
+        rw [hlen x, hl]
+      -- x ↦ x∘p is injective on the (finite) index set, hence surjective
+      choose f hf using hv
+      have finj : Function.Injective f := by
+        intro x x' e
+        apply IdxL.toList_injective
+        have h1 := act_act_inverseRaw (x := x.toList) hp (by rw [hlen x, hl])
+        have h2 := act_act_inverseRaw (x := x'.toList) hp (by rw [hlen x', hl])
+        rw [← h1, ← h2, ← hf x, ← hf x', e]
+      have fsurj := Finite.surjective_of_injective finj
+      refine ⟨hs, hp.inverseRaw, by simp [sInv, hl], ?_, ?_⟩
+      · intro x
+        obtain ⟨w, hw⟩ := fsurj x
+        refine ⟨w, ?_⟩
+        show w.toList = act x.toList (inverseRaw p)
+        rw [← hw, hf w, act_act_inverseRaw hp (by rw [hlen w, hl])]
+      · intro x y hy
+        have := hsym y x (back x y hy)
+        show t x = (s : ℝ) * t y
+        rcases hs with rfl | rfl <;> simp at this ⊢ <;> linarith
+    · -- product
+      rintro ⟨s, p⟩ ⟨s', q⟩ ⟨hs, hp, hl, hv, hsym⟩ ⟨hs', hq, hl', hv', hsym'⟩
+      have hcomp : ∀ x : List ℕ, act x (composeRaw p q) = act (act x p) q := fun x =>
+        (act_act hq (by rw [hl, hl'])).symm
+      refine ⟨?_, hp.composeRaw hq (by rw [hl, hl']), by simp [sMul, hl], ?_, ?_⟩
+      · show s * s' = 1 ∨ s * s' = -1
+        rcases hs with rfl | rfl <;> rcases hs' with rfl | rfl <;> simp
+      · intro x
+        obtain ⟨w, hw⟩ := hv x
+        obtain ⟨y, hy⟩ := hv' w
+        exact ⟨y, by show y.toList = act x.toList (composeRaw p q); rw [hcomp, ← hw, hy]⟩
+      · intro x y hy
+        obtain ⟨w, hw⟩ := hv x
+        have hy' : y.toList = act w.toList q := by
+          rw [hw, ← hcomp]; exact hy
+        show t x = ((s * s' : ℤ) : ℝ) * t y
+        rw [hsym x w hw, hsym' w y hy']
+        push_cast; ring
+  intro a ha x y hy
+  rw [hgrp] at ha
+  exact (hall a ha).2.2.2.2 x y hy
+
+/-- … and conversely (the terms belong to the group) -/
+theorem isSym_iff_terms (ht : termsCheck c = true) (hg : groupCheck c = true) (t : Idx c.irIn → ℝ) :
+    IsSym c t ↔ ∀ a ∈ c.terms, ∀ x y : Idx c.irIn, y.toList = act x.toList a.2 → t x = (a.1 : ℝ) * t y :=
+  ⟨fun h a ha => h a ((group_of_check hg).2.2.1 a ha), isSym_of_terms ht hg⟩
+
+
+
+/-! ## orthogonality of the representations; equivariance of `to_cartesian` -/
+
+/-- entries of the direct-sum generator are antisymmetric when every block is -/
+theorem bdGet_skew (a : ℕ) : ∀ (s : List Ir), (∀ ir ∈ s, skewCheck (2 * ir.1 + 1) (so3Gen ir.1 a) = true) →
+    ∀ r c : ℕ, (bdGet a s r c).eval + (bdGet a s c r).eval = 0
+  | [], _, _, _ => by simp [bdGet]
+  | ir :: rest, h, r, c => by
+    have hsk := h ir (List.mem_cons_self ..)
+    have ih := bdGet_skew a rest (fun ir' h' => h ir' (List.mem_cons_of_mem _ h'))
+    unfold bdGet
+    simp only
+    by_cases hr : r < 2 * ir.1 + 1 <;> by_cases hc : c < 2 * ir.1 + 1
+    · have e1 : Nat.blt r (2 * ir.1 + 1) = true := by rw [Nat.blt_eq]; exact hr
+      have e2 : Nat.blt c (2 * ir.1 + 1) = true := by rw [Nat.blt_eq]; exact hc
+      rw [e1, e2]
+      simp only [cond_true]
+      have := SqrtQ.eval_of_isZero (all2_spec hsk r hr c hc)
+      rw [SqrtQ.eval_hadd] at this
+      exact this
+    · have e1 : Nat.blt r (2 * ir.1 + 1) = true := by rw [Nat.blt_eq]; exact hr
+      have e2 : Nat.blt c (2 * ir.1 + 1) = false := by
+        cases h' : Nat.blt c (2 * ir.1 + 1)
+        · rfl
+        · rw [Nat.blt_eq] at h'; exact absurd h' hc
+      rw [e1, e2]; simp
+    · have e1 : Nat.blt r (2 * ir.1 + 1) = false := by
+        cases h' : Nat.blt r (2 * ir.1 + 1)
+        · rfl
+        · rw [Nat.blt_eq] at h'; exact absurd h' hr
+      have e2 : Nat.blt c (2 * ir.1 + 1) = true := by rw [Nat.blt_eq]; exact hc
+      rw [e1, e2]; simp
+    · have e1 : Nat.blt r (2 * ir.1 + 1) = false := by
+        cases h' : Nat.blt r (2 * ir.1 + 1)
+        · rfl
+        · rw [Nat.blt_eq] at h'; exact absurd h' hr
+      have e2 : Nat.blt c (2 * ir.1 + 1) = false := by
+        cases h' : Nat.blt c (2 * ir.1 + 1)
+        · rfl
+        · rw [Nat.blt_eq] at h'; exact absurd h' hc
+      rw [e1, e2]
+      simp only [cond_false]
+      exact ih _ _
+
+theorem genCert_skewCheck {l : ℕ} (h : genCert l = true) (a : ℕ) (ha : a < 3) :
+    skewCheck (2 * l + 1) (so3Gen l a) = true := by
+  simp only [genCert, Bool.and_eq_true] at h
+  obtain ⟨⟨⟨⟨⟨⟨⟨⟨⟨_, _⟩, _⟩, h0⟩, h1⟩, h2⟩, _⟩, _⟩, _⟩, _⟩ := h
+  interval_cases a
+  · exact h0
+  · exact h1
+  · exact h2
+
+/-- the direct-sum generators are antisymmetric -/
+theorem genBD_skew (a : ℕ) (ha : a < 3) (s : List Ir) (hs : ∀ ir ∈ s, genCert ir.1 = true) :
+    (genBD a s)ᵀ = -genBD a s := by
+  ext r c
+  have := bdGet_skew a s (fun ir h => genCert_skewCheck (hs ir h) a ha) r.val c.val
+  rw [Matrix.transpose_apply, Matrix.neg_apply, genBD_apply, genBD_apply, bdMat, get_tabulate2 _ _ _ _ _ c.isLt r.isLt,
+    get_tabulate2 _ _ _ _ _ r.isLt c.isLt]
+  linarith
+
+/-- `Irreps.D_from_angles` is orthogonal, and the inverse rotation has Euler angles `(-γ, -β, -α)` -/
+theorem Dirr_orthogonal (s : List Ir) (hs : ∀ ir ∈ s, genCert ir.1 = true) (α β γ : ℝ) :
+    (Dirr s α β γ)ᵀ * Dirr s α β γ = 1 ∧ Dirr s (-γ) (-β) (-α) = (Dirr s α β γ)ᵀ :=
+  ⟨eulerD_orthogonal_of_skew _ _ (genBD_skew 0 (by omega) s hs) (genBD_skew 1 (by omega) s hs) α β γ,
+   eulerD_neg_eq_transpose_of_skew _ _ (genBD_skew 0 (by omega) s hs) (genBD_skew 1 (by omega) s hs) α β γ⟩
+
+/-- the certified range of the generator certificates (C04): degrees ≤ 5 -/
+theorem genCert_le5 : ∀ l : ℕ, l ≤ 5 → genCert l = true := by
+  intro l h; interval_cases l
+  · exact Cert.Gen.gen_0
+  · exact Cert.Gen.gen_1
+  · exact Cert.Gen.gen_2
+  · exact Cert.Gen.gen_3
+  · exact Cert.Gen.gen_4
+  · exact Cert.Gen.gen_5
+
+
+/-- the product representation on the indices is orthogonal -/
+theorem Din_orthogonal (hs : ∀ s ∈ c.irIn, ∀ ir ∈ s, genCert ir.1 = true) (α β γ : ℝ) :
+    (Din c α β γ)ᵀ * Din c α β γ = 1 :=
+  kronProdL_orthogonal _ _ (fun s h => (Dirr_orthogonal s (hs s h) α β γ).1)
+
+theorem kronProdL_congr {σ : Type} {dim : σ → ℕ} (D E : MatFam dim) : ∀ (L : List σ), (∀ s ∈ L, D s = E s) →
+    kronProdL D L = kronProdL E L
+  | [], _ => rfl
+  | s :: L, h => by
+    rw [kronProdL_cons, kronProdL_cons, h s (List.mem_cons_self ..),
+      kronProdL_congr D E L (fun s' hs' => h s' (List.mem_cons_of_mem _ hs'))]
+
+/-- **`to_cartesian` is equivariant too**: `to_cartesian(D_out(g) v) = (D₁(g) ⊗ … ⊗ Dₙ(g)) to_cartesian(v)` -/
+theorem toCartesian_equivariant (h : Certified c) (hout : ∀ ir ∈ c.irOut, genCert ir.1 = true)
+    (hin : ∀ s ∈ c.irIn, ∀ ir ∈ s, genCert ir.1 = true) (α β γ : ℝ) (v : Fin c.D → ℝ) :
+    toCartesian c (Dout c α β γ *ᵥ v) = Din c α β γ *ᵥ toCartesian c v := by
+  have e := equivariant_rotations h (-γ) (-β) (-α)
+  have e1 : Dout c (-γ) (-β) (-α) = (Dout c α β γ)ᵀ := (Dirr_orthogonal c.irOut hout α β γ).2
+  have e2 : Din c (-γ) (-β) (-α) = (Din c α β γ)ᵀ := by
+    unfold Din
+    rw [kronProdL_transpose]
+    exact kronProdL_congr _ _ _ (fun s hs => (Dirr_orthogonal s (hin s hs) α β γ).2)
+  rw [e1, e2] at e
+  unfold toCartesian
+  rw [← Matrix.vecMul_transpose, Matrix.vecMul_vecMul, e, ← Matrix.vecMul_vecMul, Matrix.vecMul_transpose]
+
+def lLe5 (s : List Ir) : Bool := s.all fun ir => Nat.ble ir.1 5
+
+theorem genCert_of_lLe5 {s : List Ir} (h : lLe5 s = true) : ∀ ir ∈ s, genCert ir.1 = true := by
+  intro ir hir
+  simp only [lLe5, List.all_eq_true, Nat.ble_eq] at h
+  exact genCert_le5 ir.1 (h ir hir)
+
 /-! ## non-vacuity: `ReducedTensorProducts("ij=-ji", i="1o")` (= `CartesianTensor("ij=-ji")`, the cross product) -/
 
 namespace Example
@@ -261,5 +459,7 @@ example : Certified Example.cfg :=
 example : Complete Example.cfg := ⟨by decide +kernel, by decide +kernel⟩
 example : Example.cfg.group = [(1, [0, 1]), (-1, [1, 0])] := by decide +kernel
 example : (0, 1) ∈ blocksFrom 0 Example.cfg.irOut := by decide
+example : termsCheck Example.cfg = true := by decide +kernel
+example : lLe5 Example.cfg.irOut = true ∧ Example.cfg.irIn.all lLe5 = true := by decide
 
 end E3nnVerif.Props.C10
